@@ -51,6 +51,36 @@ macro_rules! comb_h {
         comb::<$t, $rt, { $l }>(&buf, $d0, $want)
     }};
 }
+/// Reference of a Unicode-property node: the character at the cursor (decoded independently) satisfies pest's
+/// own predicate. Checks the wiring (match_char_by, cursor advance), not pest's tables.
+pub struct RLetter;
+impl RefNode for RLetter {
+    fn eval(c: Ctx<'_>, mut s: RefState) -> Option<RefState> {
+        let (ch, n) = char_at(c, s.pos)?;
+        if pest::unicode::LETTER(char::from_u32(ch)?) {
+            s.pos += n;
+            Some(s)
+        } else {
+            None
+        }
+    }
+}
+/// `predefined_node::match_char_by` with a caller-supplied predicate (here: "is an ASCII digit or 'é'").
+fn match_char_by_fn() {
+    let buf = nd::utf8_buf::<3>();
+    let s = nd::as_str(&buf);
+    let p0 = nd::usize();
+    nd::assume(p0 <= 3 && s.is_char_boundary(p0));
+    let mut inp = pest_typed::Position::new(s, p0).unwrap();
+    let before = pest_typed::Input::byte_offset(&inp);
+    let got = pest_typed::predefined_node::match_char_by(&mut inp, |c| c.is_ascii_digit() || c == 'é');
+    let exp = s[p0..].chars().next().filter(|c| c.is_ascii_digit() || *c == 'é');
+    assert!(got == exp, "match_char_by returns a character other than the matching one at the cursor");
+    let after = pest_typed::Input::byte_offset(&inp);
+    assert!(after == before + exp.map(|c| c.len_utf8()).unwrap_or(0), "match_char_by moved the cursor by something else than the matched character");
+    cover!(got == Some('é'), "multi-byte match");
+    cover!(got.is_none() && p0 < 3, "no match");
+}
 type SkW<T> = Skipped<T, Ws, 1>;
 type NkW<T> = Skipped<T, Ws, 0>;
 
@@ -71,6 +101,8 @@ harnesses! {
     #[kani::unwind(8)] fn c01_leaf_skip_bb_4() [T0 S] : "Q|Skip<[\"]]\"]> stops at the first occurrence, else at the end" { leaf_h!(Skip<'_, N_BB>, RSkipUntil<N_BB>, 4, false) }
     #[kani::unwind(8)] fn c01_leaf_skip_two_4() [T0 S] : "Q|Skip<[\"a\",\"bc\"]>: earliest occurrence of any needle, not first-listed" { leaf_h!(Skip<'_, N_A_BC>, RSkipUntil<N_A_BC>, 4, false) }
     #[kani::unwind(8)] fn c01_leaf_skip_eacute_4() [T0 S] : "Q|Skip<[\"é\"]> multi-byte needle" { leaf_h!(Skip<'_, N_EACUTE>, RSkipUntil<N_EACUTE>, 4, false) }
+    #[kani::unwind(8)] fn c01_leaf_unicode_letter_3() [T0 S] : "Q|Unicode-property node LETTER: matches exactly when pest::unicode::LETTER holds for the (independently decoded) character at the cursor, and consumes it; UTF-8 3 bytes" { leaf_h!(pest_typed::predefined_node::unicode::LETTER, RLetter, 3, true) }
+    #[kani::unwind(6)] fn c01_leaf_match_char_by_3() [] : "Q|predefined_node::match_char_by with a custom predicate: returns the matching character at the cursor and advances by its length; UTF-8 3 bytes" { match_char_by_fn() }
     #[kani::unwind(9)] fn c01_leaf_str_5() [T0 S] : "T|Str, UTF-8 5 bytes" { leaf_h!(Str<A_EACUTE>, RStr<A_EACUTE>, 5, true) }
     #[kani::unwind(9)] fn c01_leaf_insens_5() [T0 S] : "T|Insens, UTF-8 5 bytes" { leaf_h!(Insens<'_, AZ>, RInsens<AZ>, 5, true) }
     #[kani::unwind(9)] fn c01_leaf_range_5() [T0 S] : "T|CharRange, UTF-8 5 bytes" { leaf_h!(CharRange<'a', 'é'>, RRange<'a', 'é'>, 5, true) }
